@@ -839,9 +839,10 @@ func (ex *Exec) specCall(call *ast.CallExpr, info *types.Info, env *SpecEnv, pc 
 			return BoolV{False}
 		}
 		// (stated over the relative offset: for well-formed slices - offsets and
-		// lengths in [0, 2^40] - this is b.Off <= a.Off && a.Off+a.Len <= b.Off+b.Len)
+		// lengths in [0, 2^40] - this is b.Off <= a.Off && a.Off+a.Len <= b.Off+b.Len;
+		// written as a.Len <= b.Len - rel so that no sum has to be compared)
 		rel := BVSub(a.Off, b.Off)
-		return BoolV{And(Eq(a.ID, b.ID), BVSle(BV(0, 64), rel), BVSle(BVAdd(rel, a.Len), b.Len), BVSle(BV(0, 64), a.Len))}
+		return BoolV{And(Eq(a.ID, b.ID), BVSle(BV(0, 64), rel), BVSle(rel, b.Len), BVSle(a.Len, BVSub(b.Len, rel)), BVSle(BV(0, 64), a.Len))}
 	case "offsetin":
 		a, b := arg(0).(SliceV), arg(1).(SliceV)
 		return IntV{BVSub(a.Off, b.Off)}
